@@ -13,6 +13,17 @@ func init() {
 	streams["C08"] = streamC08
 	streams["C09"] = streamC09
 	streams["C12"] = func(c *Ctx) {
+		{
+			dr := StartDriver(c.DriverBin)
+			ok := true
+			for _, be := range backendsAll {
+				ok = ok && dataInterleavings(c, dr, be)
+			}
+			dr.Close()
+			if !ok {
+				return
+			}
+		}
 		streamHistories(c, HistCfg{Ops: 40, QueriesPer: 1, Indexes: true, Dumps: true, Malformed: true}, "ids: inserts with generated/supplied/duplicate/malformed ids, saves, replacements, updates rewriting _id")
 	}
 	streams["C13"] = func(c *Ctx) {
@@ -439,6 +450,11 @@ func streamC03(c *Ctx) {
 	if os.Getenv("VERIF_C03_ONLYBIG") != "" {
 		sizes = []int{1100}
 	}
+	for _, be := range backendsAll {
+		if !repeatedOperandBulk(c, dr, be) {
+			return
+		}
+	}
 	dm := Domain{IntsWithin2p53: true, NoNegTimes: true}
 	specOnly := false
 	// another client's write committed immediately before a bulk operation opens its transaction: selecting and
@@ -665,6 +681,11 @@ func streamC08(c *Ctx) {
 	replayKnownFindings(c, dr)
 	nHist := c.N(160, 2000)
 	dm := Domain{IntsWithin2p53: true, NoNegTimes: true}
+	for _, be := range backendsAll {
+		if !bigIntSorts(c, dr, be) {
+			return
+		}
+	}
 	for _, be := range backendsAll {
 		im := NewImpl(be, c.Scratch)
 		{
